@@ -11,6 +11,17 @@ claimed = {
  "C12": ("exploration", "before/after snapshot monitor around compaction (hub-vs-hub), feed subsequence rule, writer placed between snapshot and flush by a hook, crash injection between flushes", "3.C12"),
  "C14": ("exploration", "snapshot-equality monitor across stop/start after every operation of generated data / dataset / job / security histories", "3.C14"),
  "C19": ("exploration", "invariant monitor at quiescent points: catalogue vs core.Dataset meta-entities vs model and feed distinct-id counts", "3.C19"),
+ "C05": ("exploration", "recorded concurrent history + offline checkers: lock-order / wait-for graph from lock hooks, feed-block order checker, porcupine linearizability per (dataset, entity), atomic-visibility checks, Go race detector (crash-capable blocks)", "3.C05"),
+ "C08": ("fault_enumeration", "conservation monitor sink-vs-source over job runs with enumerated sink failures, kills at batch boundaries and SIGKILL at pipeline hook points; token <= delivered; idle-run no-op", "3.C08"),
+ "C09": ("exploration", "sequence monitor over recorded request/response codes + feed inspection (exact deletion set, exactly-one tombstone), hook-stretched lease windows, Go race detector", "3.C09"),
+ "C10": ("exploration", "exactly-once / order checker at the sink over an exhaustively enumerated (n, batch, parallelism) box of real job runs", "3.C10"),
+ "C11": ("exploration", "run-lifecycle monitor (ticket borrow/return, outcome, stored result) over the cross product of job building blocks in sub-processes + interval non-overlap / pool-bound checkers over concurrent triggers + Go race detector", "3.C11"),
+ "C13": ("exploration", "recorded concurrent assert/lookup history checked with porcupine ('unset or set once forever'), global injectivity monitor incl. restart, CURIE round-trip monitor, panic/fatal monitor, Go race detector", "3.C13"),
+ "C15": ("exploration", "panic monitor + round-trip / store-state oracle over grammar-mutated and noisy payloads at the parser and the real HTTP handlers", "3.C15"),
+ "C16": ("exploration", "reference decision function (served => granted and not denied) evaluated against the real router for all routes x token variants x an exhaustively enumerated ACL lattice; restart persistence", "3.C16"),
+ "C17": ("fault_enumeration", "accept/reject log vs handler log checker (exactly-once, early stop, outcome) over exhaustively enumerated failing subsets; retry-count monitor for reRun", "3.C17"),
+ "C18": ("exploration", "completeness monitor: model-computed required set must be contained in the entities the recording sink received, runs repeated to the token fixpoint, sink failures at every request index", "3.C18"),
+ "C20": ("exploration", "restore-vs-source snapshot monitor after every backup run (badger Load into an empty store), foreign-location directory hash", "3.C20"),
 }
 texts = {
  "C01": "Held on every generated history explored: after each operation of each history the hub's listing (one call and paged), scoped and unscoped lookups equalled the reference model. Exploration is the right level: the property quantifies over all histories and contents, which only sampling with a strong oracle can approach at run time.",
@@ -21,6 +32,17 @@ texts = {
  "C12": "Held on every generated history explored: every read answer (current and as-of) equal before and after each compaction, latest-only feed equal as a multiset, full feed = previous minus versions identical to their predecessor; also with a writer committing between snapshot and flush and with kills at every flush boundary.",
  "C14": "Held on every generated history explored: the complete snapshot (reads, tokens, namespaces, job definitions/states/history, clients, ACLs, providers) was identical across a stop/start after every operation, and writes after the restart matched the model.",
  "C19": "Held at every quiescent point of every generated history explored: one live meta-entity per dataset with its name, none for deleted / renamed-away names, items counter = distinct ids ever stored.",
+ "C05": "Held on every concurrent history produced: all clients completed (no wait-for cycle, no lock-order cycle between goroutines without a common gate), every acknowledged write is one contiguous complete block in its dataset's feed in an order consistent with program and real-time order, per-entity histories linearizable (porcupine), no single-call read mixed two batches or transactions, no crash-capable race block and no process death.",
+ "C08": "Held on every (schedule, fault) pair enumerated: equality of sink and source latest views after each successful run, persisted token never ahead of the sink after a sink failure / kill / crash at a hook point, equality restored by the next successful run, idle run a no-op.",
+ "C09": "Held on every generated request history: every end answered 200 tombstoned exactly the unwritten previously-live entities once, everything written stayed live; every rejected, foreign-id, superseded, abandoned or expired sync deleted nothing then or later; no crash-capable race.",
+ "C10": "Held on every (n, batch, parallelism) triple of the exhaustively enumerated box (and the sampled larger ones): each source entity reached the transform exactly once, sink feed = f(seen) in source order, identity = plain copy, re-run adds nothing, no panic.",
+ "C11": "Held on every job definition of the enumerated cover / product and on every concurrent trigger history: each run ended with an outcome, a stored result and a returned slot, the process survived, no two runs of one id overlapped and pools were never exceeded; no crash-capable race.",
+ "C13": "Held on every concurrent history produced: assert/lookup histories explained by 'unset or set once forever', every (expansion,prefix) and (URI,id) pair injective and stable incl. across a restart, every generated URI round-trips, no panic / fatal / crash-capable race.",
+ "C15": "Held on every generated input: no panic or generic 500, no malformed element accepted or stored, valid payloads stored exactly, served collections parse back to the same entities.",
+ "C16": "Held on every request of the enumerated space: defective tokens rejected on all protected routes; no request served without a granting entry or against a matching deny entry (except the listed finding GET /); clients and ACLs unchanged by a restart.",
+ "C17": "Held on every enumerated (failing subset, maxItems, batching) and reRun case: every other entity delivered once, each rejected entity reported once, early stop at maxItems, outcome carries the error, re-executions within maxRetries and never after success or kill.",
+ "C18": "Held on every generated join / history: every main entity the model requires was emitted by the time the tokens stopped moving, emitted entities are main versions, dependency tokens never beyond the feed end nor past undelivered changes after a sink failure.",
+ "C20": "Held on every generated history: after every completed backup run the restored hub answered every read like the source hub at the start of the run, also with restarts between runs; a foreign location was left untouched.",
  "C06": "Held on every generated history explored: answers recorded at each commit were reproduced by as-of queries at instants inside [T_k, T_k+1) after later writes; paged queries continued across writes added up to the set as of their first page.",
 }
 notes = {
@@ -32,6 +54,17 @@ notes = {
  "C12": "Trusted: legacy duplicates are injected by raw keys laid out like StoreEntities does; racing writers are placed at the compact.beforeFlush hook (one placement per compaction), not at arbitrary instants.",
  "C14": "In-process restarts (scheduler stopped, store closed, all services re-assembled); the web layer and metrics are not part of the snapshot.",
  "C19": "Sequential histories (every op boundary is quiescent); concurrent counter updates are exercised by the C05 workload.",
+ "C05": "Interleavings are those the Go scheduler produced under GOMAXPROCS 2/4/16 with PRNG sleeps at hook points; the evidence reports overlapping write pairs and lock-order edges seen. A stall without a wait-for cycle is inconclusive. The copy-on-write publication of the deleted-set in DeleteDataset is exempted from the crash-capable race rule (documented in DESIGN.md).",
+ "C08": "Runs are issued synchronously through the scheduler-built job objects (cron / raffle dispatch is C11's); crash instants are the four pipeline hook points; weak reading of token-vs-sink.",
+ "C09": "Verdicts use status codes and feed contents only; job ops start at the real datasetSink; lease 100-200 ms with hook-stretched windows.",
+ "C10": "The transform's view is observed through Log()/UUID() of the transform API; HttpTransform and non-dataset sources not covered.",
+ "C11": "Run identity by goroutine-per-run and title == id; a hang is a violation only when outcome and result exist but the slot is held, otherwise inconclusive.",
+ "C13": "Implicit assertions (through the parser) are modelled as 'set to an unobserved prefix'; crash points in the id path are C04's.",
+ "C15": "Inputs the UDA grammar leaves unspecified (null values, >2^53 integers, unknown keys) are only required not to panic.",
+ "C16": "One-directional oracle (over-rejection is not alarmed); 'served' is decided from the status; OPA endpoint empty (ACL path decides) plus a stub scenario.",
+ "C17": "Rejections are HTTP 400 at a scripted loopback sink; the retry delay is checked one-sided on recorded stamps.",
+ "C18": "Smallest required-set reading; only under-emission is a violation; faults are sink failures only.",
+ "C20": "Sequential histories; native mode always, rsync mode when rsync is on PATH.",
  "C06": "Trusted: commit times are read back from the `recorded` field; an op that commits nothing creates no instant; maintenance ops are excluded per the statement.",
 }
 props=[json.loads(l) for l in open('/verif/properties.jsonl')]
